@@ -9,10 +9,11 @@ def run(ctx):
     ctx.level = 'proof'
     ctx.functions += ['proportion::{ci,ci_wilson,ci_wilson_ratio,ci_z_normal,ci_true,ci_if,is_significant}', 'proportion::Stats::{new,ci,extend,extend_if,from_iter,add_success,add_failure,is_significant}']
     ctx.assumptions += [
-        'K: ci_wilson / ci_z_normal / is_significant decided for every (n,k) in usize x usize with the normal quantile stubbed (|z| <= 40, sign contract); front-end loops (ci_true, ci_if, Stats::extend/extend_if/from_iter) with <= 4 symbolic items and a symbolic predicate table; ci_wilson replaced by a recorder to observe the counts handed over',
+        'K: is_significant for every (n,k) in usize x usize; (thorough tier: ci_wilson / ci_z_normal domains and NaN-freedom for every usize pair on the compiled code with the normal quantile stubbed, also part of C11\'s quick tier); front-end loops (ci_true, ci_if, Stats::extend/extend_if/from_iter) with <= 4 symbolic items and a symbolic predicate table; ci_wilson replaced by a recorder to observe the counts handed over',
     ]
-    core.run_kani_set(ctx, ['c02_', 'c11_stats_new', 'c11_wilson_ratio'], bound='all usize counts; front-end data <= 4 items', harness_timeout=1500, expected_fail=PANICS)
+    quick = ['c02_frontend', 'c02_stats_counting', 'c02_is_significant', 'c11_stats_new']
+    core.run_kani_set(ctx, quick, bound='all usize counts; front-end data <= 4 items', harness_timeout=900, expected_fail=PANICS)
     if ctx.tier == 'thorough':
-        core.run_kani_set(ctx, ['t02_'], bound='n <= 2^32', harness_timeout=3000)
+        core.run_kani_set(ctx, ['c02_wilson_domain', 'c02_z_normal_domain', 'c11_wilson_ratio', 't02_'], bound='all usize (n <= 2^32 for the Wald rule)', harness_timeout=3000)
     from props import c02_m
     c02_m.run(ctx)
